@@ -8,7 +8,7 @@ from ..progprop import ProgramProperty, Getter, have, is_exc, init_step
 
 class C12(ProgramProperty):
     id = "C12"
-    theorems = ["C12_transitive_iff", "C12_upgrade", "C12_remap_records", "C12_rewire_records", "C12_rewire_unknown"]
+    theorems = ["C12_transitive_iff", "C12_upgrade", "C12_remap_records", "C12_rewire_records", "C12_rewire_unknown", "C12_rewire_idem"]
     lean_modules = ["CuriesVerif.Properties.C12"]
     rule = ("one case = one strict converter (default delimiter), one injective URI-prefix mapping and one injective "
             "rewiring of 1-3 pairs: keys are canonical URI prefixes / URI-prefix synonyms / unknown strings (resp. "
